@@ -29,6 +29,12 @@ def sorted_by_precedence(expr) -> bool:
 
 def run(ctx):
     ctx.rule("R03.q", "a change of a Parameter attribute (objects, bounds, ...) is announced with the assigned value: in Parameter.__setattr__ the third argument of _trigger_event is the `value` parameter itself, never a read-back through a property", floor=1)
+    ctx.rule("R03.v", "slot-set model: Parameter.__setattr__ interpreted abstractly (watched slot / unwatched slot / default x the slot is being initialised / holds another object / already holds "
+                      "the identical object): the value is stored once and the attribute's watchers are notified exactly once, with the previous and the assigned value, iff the slot held a value "
+                      "before -- also when it is the identical object (the onlychanged filter is applied at dispatch, not here)", floor=1)
+    ctx.rule("R03.w", "registration model, public calls: Parameters.watch and Parameters.watch_values interpreted with a distinct abstract value for every argument (names as list / single name x "
+                      "queued x onlychanged x precedence): the Watcher handed to _register_watcher carries fn, the calling mode (args / kwargs), the names as a tuple, what, onlychanged, queued "
+                      "and precedence exactly as given, and is the object returned", floor=1)
     ctx.rule("R03.a", "every watcher dispatch in Parameter.__set__ is preceded on every path by the value store (or the constant-identity case); "
                       "the event carries old = the value read from the same storage just before the store and new = the stored binding; "
                       "Parameter.__setattr__ stores the slot before _trigger_event", floor=3)
@@ -314,8 +320,11 @@ def run(ctx):
 
     from checks.shared import slot_event_carries_assigned_value
     slot_event_carries_assigned_value(ctx, "R03.q")
+    from checks.shared import slot_set_model
+    slot_set_model(ctx, "R03.v")
     from checks import register_model
     register_model.report(ctx, "R03.p")
+    register_model.report_api(ctx, "R03.w")
 
     # the model-level rule comes last: if the interpreter cannot follow an edited flush,
     # the structural findings above are still reported
